@@ -93,7 +93,12 @@ func instantiate(s *exprShape, forms []leafForm, variant int, idx *int, r *Rand)
 		op = 1
 	}
 	e := &Expr{K: "leaf", Typ: f.Typ, Form: f.Form, Op: f.Op, Val: f.Val, Strict: f.Strict}
+	if f.Typ == "auto" {
+		a := autoLeaf(variant+i, false)
+		e.Toks, e.Opnd = a.Toks, a.Opnd
+	}
 	switch f.Typ {
+	case "auto":
 	case "flag":
 		e.Opnd = fmt.Sprintf("FLAG_%d", op)
 	case "defeated":
@@ -186,7 +191,7 @@ func checkC02(c *Ctx) {
 			}
 			distinct[src] = true
 			nprog++
-			compileBoth(c, fmt.Sprintf("e%d.%d", si, vi), p, src, Opts{}, &cases, &rejected)
+			compileBoth(c, fmt.Sprintf("e%d.%d", si, vi), p, src, Opts{AutoVar: genAutoVar()}, &cases, &rejected)
 			if nprog%400 == 1 {
 				c.Sample(map[string]interface{}{"source": src})
 			}
